@@ -558,12 +558,39 @@ Proof.
     destruct (hmem m (alist a l)); exact HR.
 Qed.
 
+Lemma step_MoveToBack : forall st a l e, R st a -> is_orphan a e = false -> refines_step st a (MoveToBack l e).
+Proof.
+  intros st a l e HR Ho. unfold refines_step. simpl.
+  pose proof (owned_spec st a l e HR Ho) as Hs. destruct (hmem e (alist a l)) as [n|].
+  - destruct Hs as (E & Hin & Hown). subst e. rewrite Hown. simpl.
+    pose proof (ringf_prev_head _ _ _ _ (R_ring _ _ HR l)) as Hp. rewrite Hp.
+    destruct (in_split _ _ Hin) as (A & B & Hsp).
+    pose proof (R_nodup _ _ HR l) as Hnd. rewrite Hsp in Hnd.
+    destruct B as [|b0 B1].
+    + assert (Hl : last (map El (alist a l)) (Root l) = El n) by (rewrite Hsp, map_app; simpl; apply last_last).
+      rewrite Hl. simpl. rewrite Nat.eqb_refl.
+      eexists; split; [reflexivity|]. simpl. apply R_aset_same; auto.
+      rewrite Hsp. rewrite rem_split by auto. rewrite app_nil_r. reflexivity.
+    + destruct (@exists_last _ (b0 :: B1)) as (B0 & b & EB); [discriminate|]. rewrite EB in *.
+      assert (Hl : last (map El (alist a l)) (Root l) = El b).
+      { rewrite Hsp. replace (A ++ n :: B0 ++ [b]) with ((A ++ n :: B0) ++ [b]) by (rewrite <- app_assoc; reflexivity).
+        rewrite map_app. simpl. apply last_last. }
+      assert (Hbn : b <> n).
+      { intro; subst. apply NoDup_remove_2 in Hnd. apply Hnd. apply in_or_app; right. apply in_or_app; right; left; auto. }
+      rewrite Hl. simpl. rewrite (proj2 (Nat.eqb_neq b n)) by auto.
+      destruct (move_R st a l n (El b) (Root l :: map El (A ++ B0)) [] (rem n (alist a l) ++ [n]) HR Hin) as (st' & Hm & HR').
+      { rewrite Hsp. rewrite rem_split by auto. rewrite app_assoc, map_app. reflexivity. }
+      { rewrite Hsp. rewrite rem_split by auto. rewrite app_assoc. rewrite !map_app. simpl. rewrite <- app_assoc. reflexivity. }
+      rewrite Hm. simpl. eexists; split; [reflexivity | exact HR'].
+  - rewrite Hs. simpl. eexists; split; [reflexivity | exact HR].
+Qed.
+
 (* ==== all histories ==== *)
-(* calls whose refinement is proved here; the other four (MoveToBack, MoveBefore, PushBackList, PushFrontList)
+(* calls whose refinement is proved here; the other three (MoveBefore, PushBackList, PushFrontList)
    are tied to container/list by the correspondence check only *)
 Definition covered (o : op) : bool :=
   match o with
-  | PushBackList _ _ | PushFrontList _ _ | MoveToBack _ _ | MoveBefore _ _ _ => false
+  | PushBackList _ _ | PushFrontList _ _ | MoveBefore _ _ _ => false
   | _ => true
   end.
 
@@ -579,6 +606,7 @@ Proof.
   - apply step_InsertBefore; auto.
   - apply step_InsertAfter; auto.
   - apply step_MoveToFront; auto.
+  - apply step_MoveToBack; auto.
   - apply step_MoveAfter; auto.
 Qed.
 
@@ -712,6 +740,6 @@ Proof. split; vm_compute; reflexivity. Qed.
 (* a history that meets the premises of run_refines (non-vacuity) *)
 Definition sample_history : list op :=
   [PushBack 0 1%Z; PushBack 0 2%Z; InsertAfter 0 3%Z (El 0); MoveAfter 0 (El 0) (El 1); Remove 0 (El 2);
-   Remove 1 (El 0); InsertBefore 1 4%Z (El 2); Init 0; PushFront 0 9%Z; MoveToFront 0 (El 3); MoveToFront 1 (El 3)].
+   Remove 1 (El 0); InsertBefore 1 4%Z (El 2); MoveToBack 0 (El 0); Init 0; PushFront 0 9%Z; MoveToFront 0 (El 3); MoveToFront 1 (El 3)].
 Lemma sample_history_ok : forallb covered sample_history = true /\ zombie_free ainit sample_history = true.
 Proof. split; vm_compute; reflexivity. Qed.
